@@ -841,6 +841,15 @@ func (d *Driver) judgeC11() {
 					d.h.violate("C11", "grace-demotion-without-disconnect", fmt.Sprintf("i%d.%d demoted by the grace mechanism at %v without any disconnect notification", in.idx, o.gen, t.End), t.End, t.SEnd)
 				} else if t.End < td+G {
 					d.h.violate("C11", "grace-demotion-too-early", fmt.Sprintf("i%d.%d demoted by the grace mechanism at %v, only %v after the latest disconnect notification at %v (grace period %v)", in.idx, o.gen, t.End, t.End-td, td, G), t.End, t.SEnd)
+				} else if expOrd > 0 {
+					// "... if no reconnect notification arrived": a reconnect notification after that
+					// disconnect whose handler had returned before the expiry handler started
+					for _, n := range notifs {
+						if n.Kind == AReconnect && n.T > td && n.DoneOrd > 0 && n.DoneOrd < expOrd {
+							d.h.violate("C11", "grace-demotion-despite-reconnect", fmt.Sprintf("i%d.%d demoted by the grace mechanism at %v although a reconnect notification had arrived at %v, after the latest disconnect notification at %v", in.idx, o.gen, t.End, n.T, td), t.End, t.SEnd)
+							break
+						}
+					}
 				}
 			}
 			// (b) exactly at td+G when it led continuously, no reconnect arrived and no stop was invoked
